@@ -47,6 +47,8 @@ BOUNDS = {
              'u/v/k/c); blk: 102 catalogue designs at width 2, every single fault of each',
     'thorough': 'seq: depth 7 with <= 4 wires; blk: catalogue at widths 2 and 3',
 }
+for k in ('quick', 'thorough'):
+    BOUNDS[k] += '; also the same name given twice in 13 spellings (children and wires, top level and inside a block)'
 TIERS = {
     'quick': {'seq': [(5, 3)], 'L': 2, 'widths': (2,)},
     'thorough': {'seq': [(7, 4)], 'L': 3, 'widths': (2, 3)},
